@@ -20,3 +20,8 @@ HARNESSES = [
     dict(name="decread.b4", src="C09/decread.c", defines=["BUFLEN=4"], unwind=8, unwindset={"lha_decoder_read.0": 7, "lha_crc16_buf.0": 6, "verif_memcpy.0": 5}, extra_srcs=["lib/crc16.c"], optional_witnesses=True,
          units=["lib/lha_decoder.c:lha_decoder_read"], timeout=300, mem_gb=4, bounds="inductive step of the decoder read loop: arbitrary bookkeeping state, 4-byte request", stubs=["method read(): arbitrary count <= max_read"]),
 ]
+
+# memory stays bounded over many members only if each decoder that is created is released again: the allocation
+# pairing of lha_decoder_new (init succeeding or failing) is decided by the leak harness shared with C20
+from C20 import HARNESSES as _C20H
+HARNESSES += [h for h in _C20H if h["name"] == "decoder.new"]
